@@ -236,15 +236,23 @@ Inductive gres := GPanic | GGas (g : Z).
 
 Definition tx_gas : Z := 21000.
 
-(** precompile.requiredGas with Go slice semantics for input[:4] *)
-Definition required_gas (F : facts) (P : pc_facts) (inp : input) : gres :=
-  if i_len inp <? 4 then (if f_len_guard F then GGas tx_gas else GPanic)
+(** precompile.requiredGas with Go slice semantics for input[:4]: reslicing a short slice panics
+    only when its CAPACITY is below 4.  [cap4] = cap(input) >= 4: false for a transaction's own
+    calldata shorter than 4 bytes; true for calldata a contract passes from its memory (the
+    interpreter hands a window of the memory buffer), unless it is empty (nil slice).  Without
+    the guard and with capacity, input[:4] reads bytes beyond the calldata: taken as an unknown
+    selector. *)
+Definition required_gas (F : facts) (P : pc_facts) (cap4 : bool) (inp : input) : gres :=
+  if i_len inp <? 4 then (if f_len_guard F || cap4 then GGas tx_gas else GPanic)
   else match selected P inp with
        | None => GGas tx_gas
        | Some mf =>
            if mf_mutation mf then GGas (30 * (i_len inp - 4) + 2000)
            else GGas (3 * (i_len inp - 4) + 1000)
        end.
+
+Definition cap4_of (k : kind) (inp : input) : bool :=
+  match k with KTop => 4 <=? i_len inp | _ => negb (i_len inp =? 0) end.
 
 (* ------------------------------------------------------------------ the precompile run *)
 
@@ -301,9 +309,9 @@ Section Run.
          end.
 
   (** runPrecompiledContract: RequiredGas, UseGas, Run *)
-  Definition run_pc (F : facts) (P : pc_facts) (ro : bool) (value : option Z) (gas : Z)
+  Definition run_pc (F : facts) (P : pc_facts) (cap4 ro : bool) (value : option Z) (gas : Z)
              (inp : input) (st : St) : result :=
-    match required_gas F P inp with
+    match required_gas F P cap4 inp with
     | GPanic => {| r_out := Panic; r_left := gas; r_st := st |}
     | GGas rq =>
         if gas <? rq then {| r_out := OutOfGas; r_left := gas; r_st := st |}
@@ -330,7 +338,7 @@ Section Run.
   Definition evm_call (F : facts) (p : pcid) (k : kind) (value gas : Z) (inp : input) (st : St) : result :=
     let P := pc_of F p in
     let st1 := if transfers k && negb (value =? 0) then transfer st value else st in
-    let r := run_pc F P (pc_readonly F k) (pc_value k value) gas inp st1 in
+    let r := run_pc F P (cap4_of k inp) (pc_readonly F k) (pc_value k value) gas inp st1 in
     match r_out r with
     | Ok => r
     | Panic => r
